@@ -12,7 +12,8 @@ use crate::{
     compilation::analyzer::{
         common::{add_member, bind_type},
         lua::{
-            analyze_func_body_returns_with, analyze_return_point, infer_for_range_iter_expr_func,
+            analyze_func_body_returns_with, analyze_return_point, get_module_semantic_id,
+            infer_for_range_iter_expr_func,
         },
         unresolve::{UnResolveCall, UnResolveConstructor},
     },
@@ -174,11 +175,23 @@ pub fn try_resolve_module(
     let expr = module.expr.clone();
     let expr_type = infer_expr(db, cache, expr)?;
     let expr_type = expr_type.get_result_slot_type(0).unwrap_or(expr_type);
+    // record what the direct path (analyze_chunk_return) records: the export's declaration and
+    // its visibility, not only the type
+    let semantic_id = get_module_semantic_id(db, module.file_id, module.expr.clone());
+    let visibility = semantic_id.as_ref().and_then(|id| {
+        db.get_property_index()
+            .get_property(id)
+            .map(|p| p.visibility.clone())
+    });
     let module_info = db
         .get_module_index_mut()
         .get_module_mut(module.file_id)
         .ok_or(InferFailReason::None)?;
     module_info.export_type = Some(expr_type);
+    module_info.semantic_id = semantic_id;
+    if let Some(visibility) = visibility {
+        module_info.merge_visibility(visibility);
+    }
     Ok(())
 }
 
